@@ -3,6 +3,7 @@
 summary table used in DESIGN.md.  usage: collect_seeded.py <candidates_dir> [--round eval_file_name]"""
 import glob, json, os, shutil, sys
 cand = sys.argv[1]
+prefix = sys.argv[2] if len(sys.argv) > 2 else ''
 out = '/verif/seeded'
 rows = []
 for d in sorted(glob.glob(os.path.join(cand, 'C*', '[0-9]'))):
@@ -14,7 +15,7 @@ for d in sorted(glob.glob(os.path.join(cand, 'C*', '[0-9]'))):
     if not ver.get('ok'):
         print('not kept (verification failed):', pid, k, {x: ver.get(x) for x in ('applies', 'demo_unchanged', 'demo_changed', 'baseline_failing')})
         continue
-    sid = '%s-%s' % (pid, k)
+    sid = '%s%s-%s' % (prefix, pid, k)
     dst = os.path.join(out, sid)
     os.makedirs(dst, exist_ok=True)
     shutil.copy(os.path.join(d, 'patch.diff'), dst)
@@ -41,7 +42,7 @@ for d in sorted(glob.glob(os.path.join(cand, 'C*', '[0-9]'))):
     for key in caught[:1]:
         viol = '; '.join(v.split('mech=')[-1].split(' ')[0] for v in ev[key]['violations'][:2])
     rows.append((sid, (agent.get('summary') or '')[:110], caught[0].split(':')[1] if caught else 'MISSED', viol))
-with open(os.path.join(out, 'SUMMARY.md'), 'w') as f:
+with open(os.path.join(out, 'SUMMARY%s.md' % ('_' + prefix.strip('-') if prefix else '')), 'w') as f:
     f.write('| seeded change | what it does | caught in tier | by (mechanisms reported) |\n|---|---|---|---|\n')
     for r in rows:
         f.write('| %s | %s | %s | %s |\n' % r)
